@@ -163,12 +163,52 @@ def components(adj):
     return out
 
 
-def fof(ra, dec, length, prec='double', S=None):
-    """(labels_sure, labels_maybe, n_band_pairs, S): both readings of the ambiguity band."""
+def tie_is_exact(length):
+    """True if a separation of exactly `length` degrees is reproduced bit for bit, in double precision, by the three
+    standard formulas alike (haversine, Vincenty, chord) for a pair anchored on the equator: then "separation == linking
+    length" is not a matter of rounding and the property text decides it (a tie does not exceed the length: it links)."""
+    x = np.deg2rad(float(length))
+    if not (0.0 < float(length) <= 90.0):
+        return False
+    with np.errstate(all='ignore'):
+        h = 2.0 * np.arcsin(np.sqrt(np.sin(x / 2) * np.sin(x / 2)))
+        v = np.arctan2(np.hypot(0.0, np.sin(x)), np.cos(x))
+        c = 2.0 * np.arcsin(0.5 * np.sqrt((np.cos(x) - 1.0) ** 2 + np.sin(x) ** 2))
+    return bool(h == x and v == x and c == x)
+
+
+def exact_links(ra, dec, length):
+    """boolean (n, n): pairs whose separation is known exactly (not through floating point) and does not exceed `length`:
+    (A) bit-identical positions (separation 0, any length >= 0, in particular length 0);
+    (B) exact ties of anchored pairs - same RA, one Dec 0.0 and the other +-length; or both Dec 0.0, RAs 0.0 and length -
+        provided tie_is_exact(length)."""
+    ra = np.asarray(ra, dtype='d')
+    dec = np.asarray(dec, dtype='d')
+    L = float(length)
+    same_ra = ra[:, None] == ra[None, :]
+    E = same_ra & (dec[:, None] == dec[None, :]) & (L >= 0.0)
+    if tie_is_exact(L):
+        z = dec == 0.0
+        onl = np.abs(dec) == L
+        E |= same_ra & ((z[:, None] & onl[None, :]) | (onl[:, None] & z[None, :]))
+        r0, rl = ra == 0.0, ra == L
+        E |= (z[:, None] & z[None, :]) & ((r0[:, None] & rl[None, :]) | (rl[:, None] & r0[None, :]))
+    np.fill_diagonal(E, False)
+    return E
+
+
+def fof(ra, dec, length, prec='double', S=None, exact=None):
+    """(labels_sure, labels_maybe, n_band_pairs, S): both readings of the ambiguity band.  `exact`: pairs known to link
+    whatever the band says (exact_links); fof.decided_by_exact = number of band pairs decided that way."""
     if S is None:
         S = checked_sep_matrix(ra, dec, ra, dec)
     sure, maybe = classify(S, length, prec)
     # spheregroup links with sep <= L: 'sure' = S < L - band, 'maybe' = S <= L + band
+    fof.decided_by_exact = 0
+    if exact is not None:
+        fof.decided_by_exact = int(np.triu(exact & ~sure, 1).sum())
+        sure = sure | exact
+        maybe = maybe | exact
     l1 = components(sure)
     nband = int((np.triu(maybe & ~sure, 1)).sum())
     l2 = components(maybe) if nband else l1
